@@ -102,6 +102,32 @@ Theorem C04_update_header_writes_image_affine :
 Proof. exact update_header_summary. Qed.
 Print Assumptions C04_update_header_writes_image_affine.
 
+(* the save step of every image class: update_header rewrites the header from the affine the
+   image has AT SAVE TIME exactly when it is not allclose to the header's best affine *)
+Theorem C04_save_step : forall has close,
+  (update_decision has close = Rewrite <-> has = true /\ close = false)
+  /\ (update_decision has close = Keep <-> has = false \/ close = true).
+Proof. exact save_step_decision. Qed.
+Print Assumptions C04_save_step.
+
+Theorem C04_save_step_nifti : forall codes aligned unknown (V : Type) (store : V -> Z) vone vmone qnum_of h shape a close,
+  update_header codes aligned unknown V store vone vmone qnum_of h shape (Some a) close
+  = match update_decision true close with
+    | Keep => Some (set_shape h shape)
+    | Rewrite => affine2header codes aligned unknown V store vone vmone qnum_of (set_shape h shape) a
+    end.
+Proof. exact save_step_nifti. Qed.
+Print Assumptions C04_save_step_nifti.
+
+Theorem C04_save_step_analyze : forall (V : Type) (store : V -> Z) qnum_of h shape a close,
+  analyze_update_header V store qnum_of h shape (Some a) close
+  = match update_decision true close with
+    | Keep => set_shape h shape
+    | Rewrite => analyze_affine2header V store qnum_of (set_shape h shape) a
+    end.
+Proof. exact save_step_analyze. Qed.
+Print Assumptions C04_save_step_analyze.
+
 Theorem C04_tables_wf : wf_tables xform_code_values aligned_code unknown_code = true.
 Proof. exact tables_wf. Qed.
 Print Assumptions C04_tables_wf.
